@@ -27,6 +27,17 @@ pub trait ToolchainPackager: Send {
     fn write_pkg(self: Box<Self>, f: fs::File) -> Result<()>;
 }
 
+/// Verification hook (only with `--cfg sccache_verif`): a toolchain packager that
+/// packages nothing, for harness-defined `Compilation`s.
+#[cfg(sccache_verif)]
+pub struct VerifNullToolchainPackager;
+#[cfg(sccache_verif)]
+impl ToolchainPackager for VerifNullToolchainPackager {
+    fn write_pkg(self: Box<Self>, _f: fs::File) -> Result<()> {
+        Ok(())
+    }
+}
+
 pub trait InputsPackager: Send {
     fn write_inputs(self: Box<Self>, wtr: &mut dyn io::Write) -> Result<dist::PathTransformer>;
 }
